@@ -16,6 +16,11 @@ WITNESSES = [
      "ipc", "1.1.1.1.1.1.1.0.0.0.0", "c0+s0", ["q_0", "sr_0", "as_0", "pd_0", "qd_0", "qd_0", "q_0", "as_0", "pr_0", "pr_0"]),
     ("a stale ActiveRequest dropped after the request that inherited its channel set the disconnect hint: both ends of the live request stay connected",
      "local", "2.1.1.1.1.1.1.1.0.0.0", "c0+s0", ["q_0", "sr_0", "pd_0", "qd_0", "qd_0", "qd_0", "qd_0", "q_0", "sr_0", "ph_0", "ad_0", "as_0", "pr_0"]),
+    ("sibling polls first: two requests in flight, the server answers request a, drops both active requests and itself; "
+     "pending_b.receive() (none) must not release the expired connection that still holds a's response (fixed: 9915d96)",
+     "local", "2.1.1.1.1.1.1.0.0.0.0", "c0+s0", ["q_0", "q_0", "sr_0", "sr_0", "as_0", "ad_0", "ad_0", "sd_0", "pr_1", "pr_0"]),
+    ("sibling polls first (ipc; both answered, b received and released, then b polls again, then a)",
+     "ipc", "2.1.1.1.1.1.1.0.0.0.0", "c0+s0", ["q_0", "q_0", "sr_0", "sr_0", "as_0", "as_1", "ad_0", "ad_0", "sd_0", "pr_1", "rx_0", "pr_1", "pr_0"]),
     ("client loan fails with OutOfMemory inside all limits (no request overflow)",
      "local", "1.1.1.1.1.1.1.0.0.0.0", "c0+s0", ["q_0", "sr_0", "pd_0", "qd_0", "q_0", "l_0"]),
     ("server loan fails with OutOfMemory inside all limits; the failed loan gives the per-request loan counter back (fixed: 99179a3)",
@@ -40,6 +45,12 @@ LIMIT_PROBES = {
         "loan_uninit fails with OutOfMemory with 0 loans outstanding",
         ["hist", "local", "1.1.1.1.1.1.1.0.0.0.0", "c0+s0", "q_0", "sr_0", "pd_0", "qd_0", "q_0", "l_0"],
         r"O l 0 = e:oom"),
+}
+# regressions of repaired defects: the history MUST match the regex
+REQUIRED_PROBES = {
+    "fix 9915d96 (an expired connection with data on a sibling channel is not released)": (
+        ["hist", "local", "2.1.1.1.1.1.1.0.0.0.0", "c0+s0", "q_0", "q_0", "sr_0", "sr_0", "as_0", "ad_0", "ad_0", "sd_0", "pr_1", "pr_0"],
+        r"O pr 1 = n .*\nO pr 0 = r0\.0\.0 "),
 }
 # regressions of repaired defects: the history must NOT match the regex any more
 REGRESSION_PROBES = {
@@ -167,6 +178,10 @@ def run(ctx):
     exh("local", "2.2.2.1.1.1.1.1.1.0.0", "c0+s0", "q_0+sr_0+pd_0+qd_0+qd_0+qd_0+qd_0+qd_0+q_0+sr_0", "hint", LI, nsh)
     exh("local", "2.1.1.1.1.2.1.1.0.1.0", "c0+s0", "q_0+sr_0+pd_0+" + "qd_0+" * 8 + "q_0+sr_0", "hint", LI, nsh)
     exh("ipc", "2.1.1.1.1.1.1.1.0.0.0", "c0+s0", "q_0+sr_0+pd_0+qd_0+qd_0+qd_0+qd_0+q_0+sr_0", "hint", LI, nsh)
+    # expired connections with several channels: two requests in flight, responses queued, the server goes away,
+    # every polling order of the two pending responses
+    exh("local", "2.1.1.1.1.1.1.0.0.0.0", "c0+s0", "q_0+q_0+sr_0+sr_0+as_0+as_1", "sib", L + 1, nsh)
+    exh("ipc", "2.1.2.1.2.1.1.0.1.0.0", "c0+s0", "q_0+q_0+sr_0+sr_0+as_0+as_1+as_0", "sib", LI, nsh)
     # loans on both sides
     exh("local", "2.2.1.1.2.1.1.0.0.0.0", "c0+s0", "-", "loan", LI, nsh)
     exh("local", "1.1.1.1.1.1.1.1.0.0.0", "c0+s0", "-", "loan", LI, nsh)
@@ -216,6 +231,14 @@ def run(ctx):
         if bad:
             ctx.violation("regression of " + name, {"history": [l[:200] for l in out.split("\n") if l[:2] in ("C ", "U ", "O ")][-40:],
                                                     "how_to_rerun": " ".join([exe] + argv)})
+    for name, (argv, rx) in REQUIRED_PROBES.items():
+        rc, out = vlib.sh(" ".join([exe] + argv) + " 2>/dev/null", timeout=300)
+        bad = rc != 0 or re.search(rx, out) is None
+        limit_probes[name] = "REGRESSED" if bad else "passes"
+        if bad:
+            ctx.violation("regression of " + name + ": a response delivered before the server went away is lost when a sibling PendingResponse polls first",
+                          {"history": [l[:200] for l in out.split("\n") if l[:2] in ("C ", "U ", "O ")][-40:],
+                           "expected": "pr 1 = n, then pr 0 = r0.0.0", "how_to_rerun": " ".join([exe] + argv)})
     cleanup()
     ctx.cov["limit_probes"] = limit_probes
 
